@@ -276,10 +276,20 @@ func checkC11(t core.TB, rec *core.Recorder, env *gen.Env, set *core.Set, rc *re
 		if kind == "" {
 			continue
 		}
+		// does the pattern alone, in a checker that has seen nothing else, get the same proposal?
+		// If not, the proposal depends on what the checker saw before: keep the whole batch.
+		single := &regexCase{Patterns: []string{a}, Raw: []bool{false}, Extra: rc.Extra}
+		if fresh, err := core.NewSet(env.Fset, []*linter.CheckerInfo{core.InfoByName("regexpSimplify")}); err == nil {
+			if fp, err := proposals(env, fresh, single); err == nil && fp[0] != b {
+				rec.Violation(t, "C11|regexpSimplify|history-dependent|"+kind,
+					fmt.Sprintf("can re-write `%s` as `%s` is not an equivalence (%s): %s; a fresh checker proposes %q for the same pattern", a, b, kind, detail, fp[0]),
+					rc)
+				continue
+			}
+		}
 		class := classifyRegexFinding(env, set, a, b, kind)
 		rec.Violation(t, "C11|regexpSimplify|"+class,
-			fmt.Sprintf("can re-write `%s` as `%s` is not an equivalence (%s): %s", a, b, kind, detail),
-			&regexCase{Patterns: []string{a}, Raw: []bool{false}, Extra: rc.Extra})
+			fmt.Sprintf("can re-write `%s` as `%s` is not an equivalence (%s): %s", a, b, kind, detail), single)
 	}
 }
 
